@@ -86,14 +86,17 @@ Record est := mkEst {
   e_pend : list (point * inst);   (* callsPendingAwait, flattened, in registration order *)
   e_rv : rvars;
   e_clock : N;                    (* logical clock of time.Now() readings *)
-  e_ctr : N }.                    (* run counter in the configuration backend *)
+  e_ctr : N;                      (* run counter in the configuration backend *)
+  e_stale : list (list N) }.      (* hook-task collector goroutines left behind by a failed
+                                     trigger command: each still receives from incomingEvents *)
 
-Definition est0 (s : st) : est := mkEst s [] rv0 1 0.
+Definition est0 (s : st) : est := mkEst s [] rv0 1 0 [].
 
-Definition set_st (x : st) (s : est) := mkEst x (e_pend s) (e_rv s) (e_clock s) (e_ctr s).
-Definition set_pend (p : list (point * inst)) (s : est) := mkEst (e_st s) p (e_rv s) (e_clock s) (e_ctr s).
-Definition set_rv (r : rvars) (s : est) := mkEst (e_st s) (e_pend s) r (e_clock s) (e_ctr s).
-Definition tick (s : est) := mkEst (e_st s) (e_pend s) (e_rv s) (N.succ (e_clock s)) (e_ctr s).
+Definition set_st (x : st) (s : est) := mkEst x (e_pend s) (e_rv s) (e_clock s) (e_ctr s) (e_stale s).
+Definition set_pend (p : list (point * inst)) (s : est) := mkEst (e_st s) p (e_rv s) (e_clock s) (e_ctr s) (e_stale s).
+Definition set_rv (r : rvars) (s : est) := mkEst (e_st s) (e_pend s) r (e_clock s) (e_ctr s) (e_stale s).
+Definition tick (s : est) := mkEst (e_st s) (e_pend s) (e_rv s) (N.succ (e_clock s)) (e_ctr s) (e_stale s).
+Definition add_stale (g : list N) (s : est) := mkEst (e_st s) (e_pend s) (e_rv s) (e_clock s) (e_ctr s) (e_stale s ++ [g]).
 
 (* ------------------------------------------------------------------ trace *)
 
@@ -114,7 +117,9 @@ Inductive tev :=
 | TBody (e : evt)                              (* the task transition *)
 | TRun (tr : N) (status : N) (rn : N)          (* published run event = built-in work marker *)
 | TCancel (i : inst)                           (* teardown: Call.Cancel *)
-| TCrash.                                      (* the core died *)
+| TUnsure (at_ : point)                        (* hook tasks triggered while a stale collector
+                                                  competes for their termination events *)
+| TCrash (at_ : point).                        (* the core died *)
 
 (* ------------------------------------------------------------------ sorted distinct weights *)
 (* HooksMap.GetWeights: keys of a map, sorted ascending *)
@@ -141,14 +146,19 @@ Definition pass_weights (hooks : list hook) (m : mname) (pred : Z -> bool) (s : 
 (* ------------------------------------------------------------------ hook tasks: collector loop *)
 (* runTasksAsHooks: one timer per hook; events are timeouts and BASIC_TASK_TERMINATED *)
 Inductive hev := HTimeout (h : N) | HTerm (h : N) (nonzero : bool) (voluntary : bool).
-Inductive loopres := LDone (errs : list N) | LCrash | LStuck.
+Inductive loopres := LDone (errs : list N) | LCrash.
 
 Fixpoint remN (x : N) (l : list N) : list N :=
   match l with [] => [] | y :: r => if x =? y then remN x r else y :: remN x r end.
 
-Fixpoint hook_loop (group timers errs succ : list N) (sched : list hev) : loopres :=
+(* [stale]: groups of collectors left behind by earlier trigger failures (their timer maps are
+   empty); [steal h] = k > 0: the termination event of hook h is received by the k-th stale
+   collector instead of the current one (all of them receive from the same unbuffered channel).
+   When the scripted events are exhausted every timer that is still armed fires. *)
+Fixpoint hook_loop (stale : list (list N)) (steal : N -> N) (group timers errs succ : list N)
+         (sched : list hev) : loopres :=
   match sched with
-  | [] => match timers with [] => LDone errs | _ => LStuck end
+  | [] => LDone (timers ++ errs)
   | ev :: r =>
     match ev with
     | HTimeout h =>
@@ -156,21 +166,27 @@ Fixpoint hook_loop (group timers errs succ : list N) (sched : list hev) : loopre
         let timers' := remN h timers in
         match timers' with
         | [] => LDone (h :: errs)
-        | _ => hook_loop group timers' (h :: errs) succ r
+        | _ => hook_loop stale steal group timers' (h :: errs) succ r
         end
-      else hook_loop group timers errs succ r     (* unknown hook, or "no timer in timers map" *)
+      else hook_loop stale steal group timers errs succ r   (* "no timer in timers map" *)
     | HTerm h nz vol =>
-      if negb (memN h group) then hook_loop group timers errs succ r   (* continue *)
-      else if negb (memN h timers) then LCrash     (* hookTimers[tid].Stop() on a nil timer *)
-      else
-        let timers' := remN h timers in
-        let bad := nz || negb vol in
-        let errs' := if bad then h :: errs else errs in
-        let succ' := if bad then succ else h :: succ in
-        match timers' with
-        | [] => LDone (if (Nlen succ' =? Nlen group) then [] else errs')
-        | _ => hook_loop group timers' errs' succ' r
-        end
+      match (if steal h =? 0 then None else nth_error stale (N.to_nat (steal h - 1))) with
+      | Some g =>
+        (* a stale collector got the event: its own hook -> nil timer; else swallowed *)
+        if memN h g then LCrash else hook_loop stale steal group timers errs succ r
+      | None =>
+        if negb (memN h group) then hook_loop stale steal group timers errs succ r   (* continue *)
+        else if negb (memN h timers) then LCrash     (* hookTimers[tid].Stop() on a nil timer *)
+        else
+          let timers' := remN h timers in
+          let bad := nz || negb vol in
+          let errs' := if bad then h :: errs else errs in
+          let succ' := if bad then succ else h :: succ in
+          match timers' with
+          | [] => LDone (if (Nlen succ' =? Nlen group) then [] else errs')
+          | _ => hook_loop stale steal group timers' errs' succ' r
+          end
+      end
     end
   end.
 
@@ -196,13 +212,17 @@ Definition sched_of (group : list N) (touts : list (N * tout)) : list hev :=
   ++ map (fun h => HTerm h false true) (filter (is TOkSlow) group).
 
 (* result of running the hook tasks of one weight: failing hook ids, or crash *)
-Definition run_tasks (group : list N) (touts : list (N * tout)) : loopres :=
+Definition trig_fails (group : list N) (touts : list (N * tout)) : bool :=
+  existsb (fun h => tout_eqb (tout_of touts h) TTrigFail) group.
+
+Definition run_tasks (stale : list (list N)) (steal : N -> N) (group : list N) (touts : list (N * tout))
+  : loopres :=
   match group with
   | [] => LDone []
   | _ =>
-    if existsb (fun h => tout_eqb (tout_of touts h) TTrigFail) group
+    if trig_fails group touts
     then LDone group                                (* hookHandlerF failed: every hook gets the error *)
-    else hook_loop group group [] [] (sched_of group touts)
+    else hook_loop stale steal group group [] [] (sched_of group touts)
   end.
 
 (* ------------------------------------------------------------------ one weight, one pass *)
@@ -221,7 +241,11 @@ Inductive pres := POk | PFail (m : mname) (f : wfail) | PCrash.
 Record oracle := mkOracle {
   or_op : N;                      (* index of the operation: names the instances it starts *)
   or_fail : list N;               (* call hooks whose instance started now will fail *)
-  or_touts : list (N * tout) }.   (* hook task outcomes *)
+  or_touts : list (N * tout);     (* hook task outcomes *)
+  or_steal : list (N * N) }.      (* hook task -> stale collector (1-based) receiving its termination *)
+
+Definition steal_of (orc : oracle) (h : N) : N :=
+  match assocN h (or_steal orc) with Some k => k | None => 0 end.
 
 Definition hooks_at (hooks : list hook) (p : point) : list hook :=
   filter (fun h => point_eqb (h_trig h) p) hooks.
@@ -249,13 +273,18 @@ Definition do_weight (hooks : list hook) (orc : oracle) (m : mname) (w : Z) (s :
   let cfail := filter (fun i => i_fail i && i_crit i) coll in
   (* phase 3: hook tasks, synchronously *)
   let tasks := map h_id (filter is_task hs) in
-  let t3 := match tasks with [] => [] | _ => [TTasks tasks (m, w)] end in
-  let s2 := set_pend pend2 s in
-  match run_tasks tasks (or_touts orc) with
-  | LCrash | LStuck => (s2, t1 ++ t2 ++ t3 ++ [TCrash], None, true)
+  let t3 := match tasks with
+            | [] => []
+            | _ => (match e_stale s with [] => [] | _ => [TUnsure (m, w)] end) ++ [TTasks tasks (m, w)]
+            end in
+  let trigfail := match tasks with [] => false | _ => trig_fails tasks (or_touts orc) end in
+  (* a failed trigger command leaves the collector goroutine behind *)
+  let s2 := if trigfail then add_stale tasks (set_pend pend2 s) else set_pend pend2 s in
+  match run_tasks (e_stale s) (steal_of orc) tasks (or_touts orc) with
+  | LCrash => (s2, t1 ++ t2 ++ t3 ++ [TCrash (m, w)], None, true)
   | LDone errs =>
     let tfail := filter (crit_of hooks) (filter (fun h => memN h errs) tasks) in
-    let named := negb (existsb (fun h => tout_eqb (tout_of (or_touts orc) h) TTrigFail) tasks) in
+    let named := negb trigfail in
     (* phase 4 *)
     match cfail, tfail with
     | [], [] => (s2, t1 ++ t2 ++ t3, None, false)
@@ -304,7 +333,7 @@ Definition builtin_before (e : evt) (s : est) : est * list tev :=
   | START_ACTIVITY =>
     let n := N.succ (e_ctr s) in
     let r := mkRv n (Some n) (SSet (e_clock s)) SEmpty SEmpty SEmpty in
-    (mkEst (e_st s) (e_pend s) r (N.succ (e_clock s)) n, [TRun (run_tr_code e) 0 n])
+    (mkEst (e_st s) (e_pend s) r (N.succ (e_clock s)) n (e_stale s), [TRun (run_tr_code e) 0 n])
   | STOP_ACTIVITY | GO_ERROR =>
     let '(s', done) := set_soeor_if_empty s in
     (s', if done then [TRun (run_tr_code e) 0 (rv_rn (e_rv s))] else [])
@@ -353,7 +382,8 @@ Inductive opkind :=
 | OLeaveCancel          (* leave_<state> hooks of all weights, then cancel pending calls *)
 | OTeardown.            (* TeardownEnvironment *)
 
-Record op := mkOp { o_kind : opkind; o_body : body; o_fail : list N; o_touts : list (N * tout) }.
+Record op := mkOp { o_kind : opkind; o_body : body; o_fail : list N; o_touts : list (N * tout);
+                    o_steal : list (N * N) }.
 
 Inductive perr := PE (m : mname) (f : wfail).
 Inductive result := ROk | RHook (l : list perr) | RBody | RInvalid | RCrash.
@@ -369,77 +399,111 @@ Definition perrs (m : mname) (p : pres) : list perr :=
 Definition is_crash (p : pres) : bool := match p with PCrash => true | _ => false end.
 Definition nonnil {A} (l : list A) : bool := match l with [] => false | _ => true end.
 
-(* Sm.Event with the four callbacks of newEnvironment *)
+(* ---- the four callbacks of newEnvironment.  Each returns the new state, the trace including
+   its published step events, the errors it raised, and whether the core died in it. *)
+
+(* before_event: negative hooks; built-in work; non-negative hooks.  A failure cancels at once. *)
+Definition before_stage (hooks : list hook) (orc : oracle) (e : evt) (s : est)
+  : est * list tev * list perr * bool :=
+  let n := SMoment (MBefore e) in
+  let '(s1, t1, p1) := run_pass hooks orc (MBefore e) wneg s in
+  match p1 with
+  | PCrash => (s1, bstep n :: t1, [], true)
+  | PFail m f => (s1, bstep n :: t1 ++ [estep n true], [PE m f], false)
+  | POk =>
+    let '(s2, tb) := builtin_before e s1 in
+    let '(s3, t3, p3) := run_pass hooks orc (MBefore e) wnonneg s2 in
+    match p3 with
+    | PCrash => (s3, bstep n :: t1 ++ tb ++ t3, [], true)
+    | PFail m f => (s3, bstep n :: t1 ++ tb ++ t3 ++ [estep n true], [PE m f], false)
+    | POk => (s3, bstep n :: t1 ++ tb ++ t3 ++ [estep n false], [], false)
+    end
+  end.
+
+(* leave_state up to the task transition: the built-in work runs even when the negative hooks
+   failed *)
+Definition leave_stage (hooks : list hook) (orc : oracle) (src : st) (s : est)
+  : est * list tev * list perr * bool :=
+  let n := SMoment (MLeave src) in
+  let '(s1, t1, p1) := run_pass hooks orc (MLeave src) wneg s in
+  match p1 with
+  | PCrash => (s1, bstep n :: t1, [], true)
+  | PFail m f => (builtin_leave src s1, bstep n :: t1 ++ [estep n true], [PE m f], false)
+  | POk =>
+    let s2 := builtin_leave src s1 in
+    let '(s3, t3, p3) := run_pass hooks orc (MLeave src) wnonneg s2 in
+    match p3 with
+    | PCrash => (s3, bstep n :: t1 ++ t3, [], true)
+    | PFail m f => (s3, bstep n :: t1 ++ t3 ++ [estep n true], [PE m f], false)
+    | POk => (s3, bstep n :: t1 ++ t3 ++ [estep n false], [], false)
+    end
+  end.
+
+(* enter_state: both passes always run, the errors are joined *)
+Definition enter_stage (hooks : list hook) (orc : oracle) (d : st) (s : est)
+  : est * list tev * list perr * bool :=
+  let n := SMoment (MEnter d) in
+  let '(s1, t1, p1) := run_pass hooks orc (MEnter d) wneg s in
+  if is_crash p1 then (s1, bstep n :: t1, [], true) else
+  let '(s2, t2, p2) := run_pass hooks orc (MEnter d) wnonneg s1 in
+  if is_crash p2 then (s2, bstep n :: t1 ++ t2, [], true) else
+  let errs := perrs (MEnter d) p1 ++ perrs (MEnter d) p2 in
+  (s2, bstep n :: t1 ++ t2 ++ [estep n (nonnil errs)], errs, false).
+
+(* after_event: both passes always run; [err0]: e.Err was already set by enter_state *)
+Definition after_stage (hooks : list hook) (orc : oracle) (e : evt) (err0 : bool) (s : est)
+  : est * list tev * list perr * bool :=
+  let n := SMoment (MAfter e) in
+  let '(s1, t1, p1) := run_pass hooks orc (MAfter e) wneg s in
+  if is_crash p1 then (s1, bstep n :: t1, [], true) else
+  let '(s2, ta) := builtin_after e (err0 || nonnil (perrs (MAfter e) p1)) s1 in
+  let '(s3, t3, p3) := run_pass hooks orc (MAfter e) wnonneg s2 in
+  if is_crash p3 then (s3, bstep n :: t1 ++ ta ++ t3, [], true) else
+  let errs := perrs (MAfter e) p1 ++ perrs (MAfter e) p3 in
+  (drop_run_number e s3, bstep n :: t1 ++ ta ++ t3 ++ [estep n (err0 || nonnil errs)], errs, false).
+
+Definition body_trace (e : evt) (ok : bool) : list tev :=
+  [bstep (STasks e); TBody e; estep (STasks e) (negb ok)].
+
+(* Sm.Event *)
 Definition transition (hooks : list hook) (orc : oracle) (e : evt) (b : body) (s : est)
   : est * list tev * result :=
   match dst_of e (e_st s) with
   | None => (s, [], RInvalid)
   | Some d =>
     let src := e_st s in
-    let nB := SMoment (MBefore e) in let nL := SMoment (MLeave src) in
-    let nE := SMoment (MEnter d) in let nA := SMoment (MAfter e) in
-    (* ---- before_event *)
-    let '(s1, t1, p1) := run_pass hooks orc (MBefore e) wneg s in
-    match p1 with
-    | PCrash => (s1, bstep nB :: t1, RCrash)
-    | PFail m f => (s1, bstep nB :: t1 ++ [estep nB true], RHook [PE m f])
-    | POk =>
-    let '(s2, tb) := builtin_before e s1 in
-    let '(s3, t3, p3) := run_pass hooks orc (MBefore e) wnonneg s2 in
-    match p3 with
-    | PCrash => (s3, bstep nB :: t1 ++ tb ++ t3, RCrash)
-    | PFail m f => (s3, bstep nB :: t1 ++ tb ++ t3 ++ [estep nB true], RHook [PE m f])
-    | POk =>
-    let tB := bstep nB :: t1 ++ tb ++ t3 ++ [estep nB false] in
-    (* ---- leave_state *)
-    let '(s4, t4, p4) := run_pass hooks orc (MLeave src) wneg s3 in
-    let s5 := builtin_leave src s4 in
-    match p4 with
-    | PCrash => (s4, tB ++ bstep nL :: t4, RCrash)
-    | PFail m f => (s5, tB ++ bstep nL :: t4 ++ [estep nL true], RHook [PE m f])
-    | POk =>
-    let '(s6, t6, p6) := run_pass hooks orc (MLeave src) wnonneg s5 in
-    match p6 with
-    | PCrash => (s6, tB ++ bstep nL :: t4 ++ t6, RCrash)
-    | PFail m f => (s6, tB ++ bstep nL :: t4 ++ t6 ++ [estep nL true], RHook [PE m f])
-    | POk =>
-    let tL := bstep nL :: t4 ++ t6 ++ [estep nL false] in
-    (* ---- the task transition (inside leave_state) *)
-    match b with
-    | BFail => (s6, tB ++ tL ++ [bstep (STasks e); TBody e; estep (STasks e) true], RBody)
-    | BFailReal =>
-      ((match e with START_ACTIVITY => zero_rn s6 | _ => s6 end),
-       tB ++ tL ++ [bstep (STasks e); TBody e; estep (STasks e) true], RBody)
-    | BOk =>
-    let tT := [bstep (STasks e); TBody e; estep (STasks e) false] in
-    let s7 := set_st d s6 in
-    (* ---- enter_state: both passes always run *)
-    let '(s8, t8, p8) := run_pass hooks orc (MEnter d) wneg s7 in
-    if is_crash p8 then (s8, tB ++ tL ++ tT ++ bstep nE :: t8, RCrash) else
-    let '(s9, t9, p9) := run_pass hooks orc (MEnter d) wnonneg s8 in
-    if is_crash p9 then (s9, tB ++ tL ++ tT ++ bstep nE :: t8 ++ t9, RCrash) else
-    let errE := perrs (MEnter d) p8 ++ perrs (MEnter d) p9 in
-    let tE := bstep nE :: t8 ++ t9 ++ [estep nE (nonnil errE)] in
-    (* ---- after_event: both passes always run *)
-    let '(s10, t10, p10) := run_pass hooks orc (MAfter e) wneg s9 in
-    if is_crash p10 then (s10, tB ++ tL ++ tT ++ tE ++ bstep nA :: t10, RCrash) else
-    let err10 := nonnil errE || nonnil (perrs (MAfter e) p10) in
-    let '(s11, ta) := builtin_after e err10 s10 in
-    let '(s12, t12, p12) := run_pass hooks orc (MAfter e) wnonneg s11 in
-    if is_crash p12 then (s12, tB ++ tL ++ tT ++ tE ++ bstep nA :: t10 ++ ta ++ t12, RCrash) else
-    let errA := perrs (MAfter e) p10 ++ perrs (MAfter e) p12 in
-    let s13 := drop_run_number e s12 in
-    let tA := bstep nA :: t10 ++ ta ++ t12 ++ [estep nA (nonnil errE || nonnil errA)] in
-    (* Event.Cancel overwrites e.Err: the last error set is returned *)
-    let res := match errA with
-               | [] => match errE with [] => ROk | _ => RHook errE end
-               | _ => RHook errA
-               end in
-    (s13, tB ++ tL ++ tT ++ tE ++ tA, res)
-    end end end end end
+    let '(s1, tB, eB, cB) := before_stage hooks orc e s in
+    if cB then (s1, tB, RCrash) else
+    match eB with
+    | _ :: _ => (s1, tB, RHook eB)
+    | [] =>
+      let '(s2, tL, eL, cL) := leave_stage hooks orc src s1 in
+      if cL then (s2, tB ++ tL, RCrash) else
+      match eL with
+      | _ :: _ => (s2, tB ++ tL, RHook eL)
+      | [] =>
+        match b with
+        | BFail => (s2, tB ++ tL ++ body_trace e false, RBody)
+        | BFailReal =>
+          ((match e with START_ACTIVITY => zero_rn s2 | _ => s2 end), tB ++ tL ++ body_trace e false, RBody)
+        | BOk =>
+          let s3 := set_st d s2 in
+          let '(s4, tE, eE, cE) := enter_stage hooks orc d s3 in
+          if cE then (s4, tB ++ tL ++ body_trace e true ++ tE, RCrash) else
+          let '(s5, tA, eA, cA) := after_stage hooks orc e (nonnil eE) s4 in
+          if cA then (s5, tB ++ tL ++ body_trace e true ++ tE ++ tA, RCrash) else
+          (* Event.Cancel overwrites e.Err: the last error set is what the caller gets *)
+          (s5, tB ++ tL ++ body_trace e true ++ tE ++ tA,
+           match eA with
+           | _ :: _ => RHook eA
+           | [] => match eE with _ :: _ => RHook eE | [] => ROk end
+           end)
+        end
+      end
+    end
   end.
 
-Definition oracle_of (i : N) (o : op) : oracle := mkOracle i (o_fail o) (o_touts o).
+Definition oracle_of (i : N) (o : op) : oracle := mkOracle i (o_fail o) (o_touts o) (o_steal o).
 
 (* leave_<state> hooks of all weights (teardown) *)
 Definition leave_all (hooks : list hook) (orc : oracle) (s : est) : est * list tev * pres :=
@@ -541,8 +605,9 @@ Definition atoi_signed (l : str) : option Z :=
   match l with
   | c :: ((_ :: _) as ds) =>
     match digits_val ds 0 with
-    | Some v => if (v <? 9223372036854775808)%Z
-                then Some (if c =? 45 then (- v)%Z else v) else None
+    | Some v => if c =? 45
+                then (if (v <=? 9223372036854775808)%Z then Some (- v)%Z else None)
+                else (if (v <? 9223372036854775808)%Z then Some v else None)
     | None => None
     end
   | _ => None
@@ -669,7 +734,7 @@ Fixpoint adv_start (x : N * N) (T : list tev) (sp : list (N * N * (rvars * bool)
       let sp' := sp ++ [(id_of i, (snap, sync_hook h))] in
       if id_eqb (id_of i) x then Some (r, sp', fi) else adv_start x r sp' fi
     | TCollect i _ => if mem_id (id_of i) fi then adv_start x r sp (rem_id (id_of i) fi) else None
-    | TCancel _ => adv_start x r sp fi
+    | TCancel _ | TUnsure _ => adv_start x r sp fi
     | _ => None     (* a marker that has not been observed yet, or a crash *)
     end
   end.
@@ -683,8 +748,8 @@ Fixpoint adv_marker (T : list tev) (sp : list (N * N * (rvars * bool))) (fi : li
     match t with
     | TStart i h snap => adv_marker r (sp ++ [(id_of i, (snap, sync_hook h))]) fi
     | TCollect i _ => if mem_id (id_of i) fi then adv_marker r sp (rem_id (id_of i) fi) else None
-    | TCancel _ => adv_marker r sp fi
-    | TCrash => None
+    | TCancel _ | TUnsure _ => adv_marker r sp fi
+    | TCrash _ => None
     | _ => Some (t, r, sp, fi)
     end
   end.
@@ -705,7 +770,7 @@ Fixpoint conf (O : list orec) (c : cst) : bool :=
          match T with
          | [] => match sp, c_ru c with [], [] => true | _, _ => false end
          | TCollect i _ :: r => mem_id (id_of i) fi && rest r sp (rem_id (id_of i) fi)
-         | TCancel _ :: r => rest r sp fi
+         | TCancel _ :: r | TUnsure _ :: r => rest r sp fi
          | TStart _ _ _ :: _ => false
          | _ => false
          end) (c_T c) (c_sp c) (c_fi c)
@@ -777,7 +842,9 @@ Definition corr08 (c : c08_case) : bool :=
   | CParse s n w => str_z_eqb (parse_trigger s) (n, w)
   | CRun hooks init ops o =>
     let '(_, l) := run_ops hooks 0 ops (est0 init) in
-    if model_crashed l then ob_crashed o
+    if existsb (fun t => match t with TUnsure _ => true | _ => false end) (full_trace l)
+    then true   (* which collector receives a termination is up to the Go runtime: no claim *)
+    else if model_crashed l then ob_crashed o
     else negb (ob_crashed o) && negb (ob_hung o) &&
          ops_match ops l (ob_ops o) &&
          conf (ob_recs o) (mkCst (full_trace l) [] [] [])
@@ -999,7 +1066,10 @@ Definition mon08 (c : c08_case) : N :=
           7 a critical failure at enter_<state> is missing from the returned error because a
             failure at after_<event> replaced it
           9 crash with a hook task that terminates after it timed out while another hook task of
-            the same weight is still awaited (nil timer)                                   *)
+            the same weight is still awaited (nil timer)
+         11 crash, hang or wrong outcome when hook tasks are triggered after a hook-task trigger
+            command failed (the collector goroutine of the failed group is left behind and
+            receives the termination events of later groups)                              *)
 
 Definition step_err (n : stepname) (recs : list orec) : bool :=
   existsb (fun r => match r with OM n' true => stepname_eqb n n' | _ => false end) recs.
@@ -1057,8 +1127,22 @@ Definition count_ok (hooks : list hook) (ops : list op) (o : op) (recs : list or
   | _ => true
   end.
 
+(* a hook task trigger failure scripted in this operation and actually exercised *)
+Definition trigfail_seen (o : op) (recs : list orec) : bool :=
+  existsb (fun r => match r with
+    | OT hs => existsb (fun h => tout_eqb (tout_of (o_touts o) h) TTrigFail) hs
+    | _ => false end) recs.
+Definition tasks_after_trigfail (o : op) (recs : list orec) : bool :=
+  (* another group of hook tasks triggered after the failed trigger, in the same operation *)
+  let is_tf r := match r with
+    | OT hs => existsb (fun h => tout_eqb (tout_of (o_touts o) h) TTrigFail) hs | _ => false end in
+  existsb (fun r => match r with OT _ => true | _ => false end) (suffix_from is_tf recs).
+Definition any_tasks (recs : list orec) : bool :=
+  existsb (fun r => match r with OT _ => true | _ => false end) recs.
+
 Fixpoint mon09_ops (hooks : list hook) (ops_all : list op) (ops : list op) (oos : list opobs)
-         (segs : list (list orec)) (src : st) (pend : list (point * (N * N) * bool)) (opi : N) : N :=
+         (segs : list (list orec)) (src : st) (pend : list (point * (N * N) * bool)) (opi : N)
+         (stale : bool) : N :=
   match ops, oos, segs with
   | o :: ops', oo :: oos', recs :: segs' =>
     let c :=
@@ -1103,8 +1187,11 @@ Fixpoint mon09_ops (hooks : list hook) (ops_all : list op) (ops : list op) (oos 
         end
       | None => 0
       end in
+    (* hook tasks triggered while a collector left behind by a failed trigger is alive *)
+    let risky := (stale && any_tasks recs) || tasks_after_trigfail o recs in
     if c =? 0 then mon09_ops hooks ops_all ops' oos' segs' (oo_state oo) (oo_pend oo) (N.succ opi)
-    else c
+                             (stale || trigfail_seen o recs)
+    else if risky then 11 else c
   | _, _, _ => 0
   end.
 
@@ -1120,8 +1207,11 @@ Definition mon09 (c : c08_case) : N :=
   match c with
   | CParse _ _ _ => 0
   | CRun hooks init ops o =>
-    if ob_crashed o || ob_hung o then (if any_late_pattern ops hooks then 9 else 4)
-    else mon09_ops hooks ops ops (ob_ops o) (split_ops (ob_recs o) [] false) init [] 0
+    if ob_crashed o || ob_hung o then
+      (if any_late_pattern ops hooks then 9
+       else if existsb (fun op => existsb (fun a => tout_eqb (snd a) TTrigFail) (o_touts op)) ops then 11
+       else 4)
+    else mon09_ops hooks ops ops (ob_ops o) (split_ops (ob_recs o) [] false) init [] 0 false
   end.
 
 (* --- C10 ---
